@@ -142,7 +142,7 @@ def main():
                     serves_properties=sorted(CLAIMED),
                     kind_free_text='custom static analysis over Python ast (program model, CFG/dominators, table extraction, string-template skeletons, set-order taint, finite abstract interpretation) and the clang JSON AST of the C++ parser')],
       checks=checks,
-      notes='Static analysis only; every check re-parses /repo on each run. Exit 0 held / 1 VIOLATION / 2 ANALYSIS-ERROR (anchor vanished or checker broke). Thorough tier adds the whole-repo scope and the self-test of the property (selftest/): hand-written and independently seeded mutants must be reported (seeded/), hand-written twins, seven whole-tree behaviour-preserving transformations and 221 independently written behaviour-preserving refactorings (benign/) must stay silent.',
+      notes='Static analysis only; every check re-parses /repo on each run. Exit 0 held / 1 VIOLATION / 2 ANALYSIS-ERROR (anchor vanished or checker broke). Thorough tier adds the whole-repo scope and the self-test of the property (selftest/): hand-written and independently seeded mutants must be reported (seeded/), hand-written twins, seven whole-tree behaviour-preserving transformations and 311 independently written behaviour-preserving refactorings (benign/) must stay silent.',
       not_applicable=na)
   with open(os.path.join(VERIF, 'MANIFEST.json'), 'w') as f:
     json.dump(manifest, f, indent=1)
